@@ -983,7 +983,7 @@ def run(ctx, only=None, only_idx=0, only_ro=None):
         "the upper-case separator 'X' (accepted by the parser, treated as '+') is outside the documented grammar",
     ]
     real = Real()
-    selftest(real)
+    rep.selftest(selftest, real)
     extra = gen_extra(ctx) if only is None else only
     res, vectors = tlc_all(ctx, rep, extra)
     if only is not None:
